@@ -69,7 +69,7 @@ func (fr *Frame) applyContract(s *State, c *Contract, callee *types.Func, recv *
 	// frame
 	if c.Pure || (c.HasFrame && len(c.Assigns) == 0) {
 		// nothing that existed before the call changes; objects returned by the callee may be freshly allocated
-		if rh := fr.eng.resultHeaps(sig); len(rh) > 0 {
+		if rh := fr.eng.resultHeaps(sig); len(rh) > 0 && !c.NoAlloc {
 			old := s.next
 			s.next = fr.vc.declare("next", "Int")
 			s.assume(fmt.Sprintf("(>= %s %s)", s.next, old))
@@ -90,6 +90,19 @@ func (fr *Frame) applyContract(s *State, c *Contract, callee *types.Func, recv *
 		if rh := fr.eng.resultHeaps(sig); len(rh) > 0 {
 			fr.extendHeaps(s, rh, old)
 		}
+	}
+	// ghost-set effects (evaluated on the pre-state values of object and element)
+	for _, ga := range c.GhostAdds {
+		genv := &SpecEnv{eng: fr.eng, vc: fr.vc, s: pre, old: pre, names: names, pkg: cpkg, side: &side, fr: fr}
+		ov := genv.eval(ga.Obj.E)
+		ev := genv.eval(ga.Elem.E)
+		if genv.err != nil {
+			fr.vc.failed = fmt.Errorf("contract %s: ghostadd: %v", c.Key, genv.err)
+			return fr.freshResults(s, sig.Results())
+		}
+		hn, hs := ghostHeap(ga.Set)
+		h := s.heap(hn, hs)
+		s.setHeap(hn, hs, fmt.Sprintf("(store %s %s (store (select %s %s) %s true))", h, ov.S, h, ov.S, ev.S))
 	}
 	// results
 	var results []*Val
@@ -158,6 +171,11 @@ func (e *Engine) designatorHeaps(c *Contract, f *types.Func, d string) (map[stri
 	}
 	if d == "big" {
 		out["H:big"] = "(Array Int Int)"
+		return out, nil
+	}
+	if strings.HasPrefix(d, "ghost(") && strings.HasSuffix(d, ")") {
+		hn, hs := ghostHeap(d[6 : len(d)-1])
+		out[hn] = hs
 		return out, nil
 	}
 	if d == "streams" || (strings.HasPrefix(d, "stream(") && strings.HasSuffix(d, ")")) {
@@ -281,7 +299,7 @@ func (fr *Frame) havocDesignator(s, pre *State, c *Contract, f *types.Func, d st
 		fr.havocEverything(s)
 		return nil
 	}
-	if strings.HasPrefix(d, "heap(") || d == "big" || d == "streams" || strings.HasPrefix(d, "mapof(") {
+	if strings.HasPrefix(d, "heap(") || d == "big" || d == "streams" || strings.HasPrefix(d, "mapof(") || strings.HasPrefix(d, "ghost(") {
 		hs, err := fr.eng.designatorHeaps(c, f, d)
 		if err != nil {
 			return err
@@ -393,6 +411,7 @@ func (e *Engine) verifyFunc(c *Contract) *VC {
 	fi := e.funcByKey[c.Key]
 	vc := e.newVC(shortKey(c.Key))
 	vc.wrapping = c.Wrapping
+	vc.noSafety = c.NoSafety
 	if fi == nil {
 		vc.failed = fmt.Errorf("no body for %s", c.Key)
 		return vc
@@ -528,6 +547,14 @@ func (e *Engine) verifyFunc(c *Contract) *VC {
 		renv := &SpecEnv{eng: e, vc: vc, s: r.s, old: fr.entry, names: rnames, pkg: fr.pkg, fr: fr}
 		var side2 []string
 		renv.side = &side2
+		if c.NoAlloc {
+			for _, v := range r.vals {
+				switch v.T.Underlying().(type) {
+				case *types.Pointer, *types.Map:
+					vc.oblige(r.s, "noalloc.ret", fmt.Sprintf("(< %s %s)", v.S, fr.entry.next), fi.Decl.Pos(), fmt.Sprintf("%s is declared noalloc: its result at return %d is nil or an object that existed at entry", c.Key, ri+1))
+				}
+			}
+		}
 		if c.Function != nil && len(r.vals) > 0 {
 			fv := renv.eval(c.Function.E)
 			if renv.err != nil {
@@ -547,7 +574,8 @@ func (e *Engine) verifyFunc(c *Contract) *VC {
 			miss := ""
 			renv.missingLocal = &miss
 			t := renv.evalBool(en.E)
-			if miss != "" && renv.err == nil {
+			if miss != "" {
+				renv.err = nil
 				// the clause talks about a local variable that is not live at this return
 				e.dropped["postcondition over a local variable skipped at a return where it is not in scope"]++
 				side2 = side2[:0]
